@@ -6,7 +6,7 @@ from .bus import method_call, BUS, BUS_PATH
 
 ACT_WEIGHTS = {"connect": 5, "hello": 5, "close": 4, "request": 16, "release": 7, "query": 2, "addmatch": 3, "removematch": 1,
                "signal": 8, "call": 24, "reply": 5, "driver_edge": 1, "forged": 2, "garbage": 0, "badtype": 1, "nodest": 1,
-               "startsvc": 9, "svcexit": 7, "actsleep": 2}
+               "startsvc": 9, "svcexit": 7, "actsleep": 2, "advance": 0}
 
 DEFAULT_FILES = [("com.example.A.service", "com.example.A", "ok", "A"), ("b.service", "com.example.B", "ok", "B"),
                  ("org.x.service", "org.x", "ok", "X"), ("q.service", "com.example.Q", "badquote", "Q"),
@@ -14,9 +14,10 @@ DEFAULT_FILES = [("com.example.A.service", "com.example.A", "ok", "A"), ("b.serv
 
 
 class ActGen(busgen.Gen):
-    def __init__(self, rng, files=None, weights=None, **kw):
-        self.files = [tuple(f) for f in (files or DEFAULT_FILES)]
-        names = [f[1].encode() for f in self.files] + [b"com.example.Plain"]
+    def __init__(self, rng, files=None, weights=None, advances=(450000, 700000), plain_names=(b"com.example.Plain",), **kw):
+        self.files = [tuple(f) for f in (DEFAULT_FILES if files is None else files)]
+        self.advances = list(advances)
+        names = [f[1].encode() for f in self.files] + [n if isinstance(n, bytes) else n.encode() for n in plain_names]
         w = dict(ACT_WEIGHTS)
         if weights:
             w.update(weights)
@@ -58,6 +59,10 @@ class ActGen(busgen.Gen):
             self.count("svcexit"); return
         if k == "actsleep":
             self.ops.append(("actsleep",)); self.count("actsleep"); self.calls = []
+            return
+        if k == "advance":
+            # (outstanding calls are kept: whether they have timed out is for the model and the oracle to say)
+            self.ops.append(("advance", self.r.choice(self.advances))); self.count("advance")
             return
         if k in ("startsvc", "svcexit"):
             k = "call"
